@@ -41,12 +41,16 @@ def check_bands(ctx, sc):
     r = energy.run_all(sc)
     rec = scenes.coords(sc['recs'])
     pw = r.collect_energy_receiver_patchwise(rec).time
+    mono_d = np.asarray(r.collect_energy_receiver_mono(rec, direct_sound=True).time)
+    dval, dbin = r.calculate_direct_sound(rec)
     ctx.oracle_evals += 1
     for b in range(sc['B']):
         scb = dict(sc, B=1, absorption=sc['absorption'][:, b:b + 1], att=sc['att'][b:b + 1],
                    tables=None if sc['tables'] is None else [t[:, :, b:b + 1] for t in sc['tables']])
         rb = energy.run_all(scb)
         pwb = rb.collect_energy_receiver_patchwise(rec).time
+        mono_db = np.asarray(rb.collect_energy_receiver_mono(rec, direct_sound=True).time)
+        dvalb, dbinb = rb.calculate_direct_sound(rec)
         ctx.oracle_evals += 1
         for name, ax in (('_form_factors_tilde', 3), ('_energy_init_source', 2), ('_energy_exchange_etc', 2)):
             full = np.take(np.asarray(getattr(r, name)), b, axis=ax)
@@ -55,6 +59,14 @@ def check_bands(ctx, sc):
                 ctx.violation('band-not-independent', 'band %d of %s in a %d-band run differs from the single-band run of that band' % (b, name, sc['B']),
                               energy.scene_input(sc), float(np.abs(full - one).max()), 'bit-identical')
                 return
+        if not (np.array_equal(np.asarray(dval)[:, b], np.asarray(dvalb)[:, 0]) and np.array_equal(np.asarray(dbin), np.asarray(dbinb))):
+            ctx.violation('band-not-independent', 'band %d of the direct sound (calculate_direct_sound) in a %d-band run differs from the single-band run (attenuation %s)' % (b, sc['B'], np.asarray(sc['att']).tolist()),
+                          energy.scene_input(sc), None, 'bit-identical')
+            return
+        if not np.array_equal(mono_d[:, b, :], mono_db[:, 0, :]):
+            ctx.violation('band-not-independent', 'band %d of the mono receiver curve with direct sound differs from the single-band run' % b,
+                          energy.scene_input(sc), None, 'bit-identical')
+            return
         if not np.array_equal(pw[:, :, b, :], pwb[:, :, 0, :]):
             ctx.violation('band-not-independent', 'band %d of the receiver curves differs from the single-band run' % b,
                           energy.scene_input(sc), None, 'bit-identical')
